@@ -453,6 +453,10 @@ func main() {
 		sel, ok := b.Y.(*ast.SelectorExpr)
 		return ok && sel.Sel.Name == "Period"
 	})
+	flagRRExact := has("x/recovery/keeper.Keeper.GetRRTokenHolders", func(n ast.Node) bool { // bytes.Equal(iterator.Key(), iterator.Value())
+		c := callNamed(n, "Equal")
+		return c != nil && len(c.Args) == 2
+	})
 	flagUbiCast := has("x/ubi/keeper.Keeper.ProcessUBIRecord", func(n ast.Node) bool { // int64(record.Amount)
 		c := callNamed(n, "int64")
 		if c == nil || len(c.Args) != 1 {
@@ -547,7 +551,7 @@ func main() {
 	sb.WriteString(fmt.Sprintf("(* x/spending/keeper EndBlocker: every Quo divisor d is preceded by `if !d.IsPositive() { continue }` *)\nDefinition spend_endblock_guarded : bool := %v.\n", guarded))
 	sb.WriteString(fmt.Sprintf("(* gov processProposal / processPoll turn an IsQuorum error into panic(\"Invalid quorum ...\") *)\nDefinition gov_proposal_quorum_error_panics : bool := %v.\nDefinition gov_poll_quorum_error_panics : bool := %v.\n", flagProposalQuorum, flagPollQuorum))
 	sb.WriteString(fmt.Sprintf("(* SpendingPoolWithdraw.Apply / ClaimSpendingPool reduce the pool balance with the panicking Coins.Sub *)\nDefinition withdraw_sub_unchecked : bool := %v.\nDefinition claim_sub_unchecked : bool := %v.\n", flagWithdrawSub, flagClaimSub))
-	sb.WriteString(fmt.Sprintf("(* ProcessUBIRecord converts the uint64 amount with int64(record.Amount) *)\nDefinition ubi_amount_cast_int64 : bool := %v.\n(* UpsertUBI.Apply computes the hard-cap sum with uint64 products and integer division by Period *)\nDefinition ubi_apply_uint64_arith : bool := %v.\n", flagUbiCast, flagUbiWrap))
+	sb.WriteString(fmt.Sprintf("(* ProcessUBIRecord converts the uint64 amount with int64(record.Amount) *)\nDefinition ubi_amount_cast_int64 : bool := %v.\n(* UpsertUBI.Apply computes the hard-cap sum with uint64 products and integer division by Period *)\nDefinition ubi_apply_uint64_arith : bool := %v.\n(* GetRRTokenHolders keeps only the index entries whose key rest equals the holder (exact denom), not every entry under the denom PREFIX *)\nDefinition rr_holders_exact_denom : bool := %v.\n", flagUbiCast, flagUbiWrap, flagRRExact))
 	sb.WriteString("(* fingerprint (sha256/64 of the comment-free, gofmt-printed declaration) of every function that contains a site *)\nDefinition fn_fingerprints : list (string * string) := [\n")
 	{
 		var ids []string
